@@ -140,6 +140,7 @@ class SymCase:
         obj = cls.__new__(cls)
         for k, v in fields.items():
             object.__setattr__(obj, k, v) if False else setattr(obj, k, v)
+        _PARTIAL[cls.__name__] = _PARTIAL.get(cls.__name__, set()) | set(fields)
         return obj
 
     # assumptions / obligations --------------------------------------------------
@@ -219,6 +220,8 @@ class SymCase:
         if isinstance(fn, (staticmethod, classmethod)):
             fn = fn.__func__
         self.p.ghost.setdefault("compare", []).append(compare)
+        if not isinstance(fn, type):
+            _check_signature(fn, args, kwargs)
         try:
             if inspect.ismethod(fn) or isinstance(fn, type):
                 r = self.interp.call(fn, list(args), kwargs)
@@ -229,6 +232,9 @@ class SymCase:
         except raises as e:
             r = Raised(e)
         except Exception as e:
+            why = _harness_limit(e)
+            if why:
+                raise Inapplicable(why)
             # an exception the contract does not allow: failed obligation on this path
             self.p.ghost["exception"] = f"{type(e).__name__}: {e}"
             vc = self.p.require("no_exception", False, kind="exc")
@@ -275,6 +281,9 @@ class SymCase:
         except raises as e:
             return Raised(e)
         except Exception as e:
+            why = _harness_limit(e)
+            if why:
+                raise Inapplicable(why)
             self.p.ghost["exception"] = f"{type(e).__name__}: {e}"
             vc = self.p.require("no_exception", False, kind="exc")
             vc.note = "raised " + self.p.ghost["exception"]
@@ -338,6 +347,7 @@ class ConcCase:
         obj = cls.__new__(cls)
         for k, v in fields.items():
             setattr(obj, k, v)
+        _PARTIAL[cls.__name__] = _PARTIAL.get(cls.__name__, set()) | set(fields)
         return obj
 
     def assume(self, cond):
@@ -389,11 +399,18 @@ class ConcCase:
     def call(self, fn, *args, raises=(), compare=True, **kwargs):
         if isinstance(fn, (staticmethod, classmethod)):
             fn = fn.__func__
+        if not isinstance(fn, type):
+            try:
+                _check_signature(fn, args, kwargs)
+            except Inapplicable:
+                raise Unconstructible("signature changed")
         try:
             r = fn(*args, **kwargs)
         except raises as e:
             r = Raised(e)
         except Exception as e:
+            if _harness_limit(e):
+                raise Unconstructible(_harness_limit(e))
             self.exception = f"{type(e).__name__}: {e}"
             self.checks.append(("no_exception", False))
             raise _ConcStop()
@@ -402,6 +419,34 @@ class ConcCase:
 
     def view_fields(self, s, shape):
         return view_fields(s, shape, self)
+
+
+_PARTIAL = {}          # class name -> attributes the contracts supply when they build an object without __init__
+
+
+def _harness_limit(e):
+    """an AttributeError for an attribute of an object a contract built without running __init__ (it supplies only the
+    attributes the unchanged code reads): the changed code reads another one - the contract does not apply to this
+    tree (undecided); the bounded part exercises real objects"""
+    if isinstance(e, AttributeError):
+        import re as _re
+        m = _re.match(r"'(\w+)' object has no attribute '(\w+)'", str(e))
+        if m and m.group(1) in _PARTIAL and m.group(2) not in _PARTIAL[m.group(1)]:
+            return f"contract-built {m.group(1)} has no attribute {m.group(2)!r} (supplied: {sorted(_PARTIAL[m.group(1)])})"
+    return None
+
+
+def _check_signature(fn, args, kwargs):
+    """a contract calls the function the way the unchanged tree defines it; when the parameters no longer bind (a
+    private helper was given another signature) the contract does not apply to this tree: undecided, not a violation"""
+    try:
+        target = fn
+        sig = inspect.signature(target)
+        sig.bind(*args, **kwargs)
+    except TypeError as e:
+        raise Inapplicable(f"the contract's call does not fit the signature of {getattr(fn, '__qualname__', fn)}: {e}")
+    except ValueError:
+        pass            # (no signature available: builtins)
 
 
 class _ConcStop(Exception):
